@@ -262,6 +262,43 @@ def check_malformed_rule(case) -> Result:
     return r
 
 
+ODD_TARGETS = ['(', ')', '?', '\\', '.', '+', '*', '|', '^', '$', '-', 'X', 'p', '1', 'PE']
+
+
+def check_odd_target(case) -> Result:
+    """a global rule whose target is not a residue of the peptide (punctuation, a lower-case letter, two letters ...): parse accepts
+    or rejects it; mass and composition of an accepted string agree with each other and never fail with an unrelated exception"""
+    import peptacular as pt
+    r = Result()
+    s = f"<[Oxidation]@{case['target']}>PEPTIDE"
+    r.nontrivial = True
+    r.classes = ['odd-rule-target']
+    ctx = dict(string=s)
+    try:
+        pt.parse(s)
+    except ValueError:
+        return r
+    vals = {}
+    for fn_name, fn in (('mass', lambda: pt.mass(s)), ('comp', lambda: pt.chem_mass(pt.comp(s))), ('mass-labelled', lambda: pt.mass('<13C>' + s) - (pt.mass('<13C>PEPTIDE') - pt.mass('PEPTIDE'))),
+                        ('condense', lambda: pt.mass(pt.condense_static_mods(s)))):
+        try:
+            vals[fn_name] = fn()
+        except ValueError:
+            continue
+        except Exception as e:  # noqa
+            r.fail('asking for the mass or composition raises a ValueError-family error, not an unrelated exception',
+                   f'C09/odd-target/{fn_name}-raises-{type(e).__name__.replace("error", "Error")}', error=str(e)[:100], **ctx)
+    if len(vals) >= 2 and max(vals.values()) - min(vals.values()) > 1e-3:
+        r.fail('mass, composition and condensed form of an accepted string agree on what the rule matches', 'C09/odd-target/calculators-disagree',
+               values=vals, **ctx)
+    return r
+
+
+def odd_target_cases():
+    for t in ODD_TARGETS:
+        yield {'target': t}
+
+
 def malformed_rule_cases():
     for v in MALFORMED_RULES:
         yield {'rule': v}
@@ -396,6 +433,8 @@ def parts(tier):
              space=f'{len(ADDUCT_VALUES)} malformed or unusual charge-adduct values x charge in (1, 2, -1)'),
         Part(name='malformed-global-rules', kind='enum', check_case=check_malformed_rule, cases=malformed_rule_cases, exhaustive=True,
              shards=1, case_limit=30, space=f'{len(MALFORMED_RULES)} global rules without a bracketed modification'),
+        Part(name='odd-rule-targets', kind='enum', check_case=check_odd_target, cases=odd_target_cases, exhaustive=True, shards=1, case_limit=30,
+             space=f'{len(ODD_TARGETS)} global-rule targets that are not residues of the peptide'),
         Part(name='strings', kind='hyp', check_case=check_string, strategy=string_strategy, examples=n, case_limit=30),
     ]
     if tier == 'thorough':
